@@ -155,10 +155,40 @@ def check_state(desc, sc, pats, res, thin):
         os.chdir(cwd)
 
 
+ODD_TREE = ['a\\.\\b', 'a\\b', 'a\\', 'b', 'd\\/', 'd\\/x', '*', '[', 'sp ace', 'e/', 'e/a\\', '.h\\', 'a.b', 'a\\./', 'a\\./b']
+ODD_LISTS = [['*b', 'a*'], ['*'], ['**'], ['*', '?*'], ['*/*', '**/*'], ['a*', '*\\\\*'], ['**/b', '**/*b']]
+
+
+def check_odd(res):
+    """Names containing backslashes and metacharacters: Path.glob is glob.glob joined on the root, as sets."""
+    sc = fsx.Scratch()
+    try:
+        sc.load(fsx.from_desc(ODD_TREE))
+        root = WP.Path(sc.root)
+        for pl in ODD_LISTS:
+            for fs in ('GE', 'GDE', 'GEQ', 'GEO'):
+                fl = pl_flags(fs)
+                res.n['evaluations'] += 1
+                res.n['distinct_nontrivial'] += 1
+                a = sorted(str(x) for x in root.glob(pl, flags=fl))
+                b = sorted(set(os.path.normpath(os.path.join(sc.root, x)) for x in G.glob(pl, flags=fl, root_dir=sc.root)))
+                inp = {'tree': ODD_TREE, 'pattern': pl, 'flags': fs}
+                if sorted(set(a)) != b:
+                    res.add_violation(ID, run.viol('pathlib-glob-differs', inp, [os.path.relpath(x, sc.root) for x in b],
+                                                   [os.path.relpath(x, sc.root) for x in a]))
+                elif 'Q' not in fs and len(a) != len(set(a)):
+                    res.add_violation(ID, run.viol('pathlib-duplicate', inp, 'no file twice', [os.path.relpath(x, sc.root) for x in a]))
+                else:
+                    res.outcomes.add('odd-agrees')
+        res.samples.append({'tree': ODD_TREE, 'patterns': ODD_LISTS[0]})
+    finally:
+        sc.close()
+
+
 def plan(tier, seed):
     st_chunks, cov = fscommon.state_chunks(tier, seed, extra_roots=fscommon.SEED_STATES, per_chunk=6)
     thin = 7 if tier == 'quick' else 2
-    chunks = [('std', c, thin) for c in st_chunks]
+    chunks = [('odd', [], 0)] + [('std', c, thin) for c in st_chunks]
     cov.update({'patterns': len(fspat.pattern_set('quick')), 'flagsets': FLAGSETS, 'exhaustive': True,
                 'pattern_thinning': 'per flag set every %d-th pattern, offset rotating with the flag set' % thin})
     return {
@@ -178,6 +208,9 @@ def plan(tier, seed):
 def run_chunk(chunk):
     kind, descs, thin = chunk
     res = run.ChunkResult()
+    if kind == 'odd':
+        check_odd(res)
+        return res
     sc = fsx.Scratch()
     try:
         pats = [p for p in fspat.pattern_set('quick') if 'updown' not in p[2]]
@@ -192,6 +225,10 @@ def run_chunk(chunk):
 def replay(v):
     inp = v['input']
     r = run.ChunkResult()
+    if inp.get('tree') == ODD_TREE:
+        check_odd(r)
+        hit = [x for x in r.viol if x['kind'] == v['kind'] and x['input'] == run.jsonable(inp)]
+        return {'violates': bool(hit), 'observed': hit[0]['observed'] if hit else 'ok'}
     sc = fsx.Scratch()
     try:
         if 'pattern' in inp and isinstance(inp['pattern'], str):
